@@ -15,8 +15,8 @@ func init() { register("C18", checkC18, replayRouting(replayC18)) }
 // commonSweeps: tables from the fragment both routers document (literal root paths incl. nested;
 // route segments literal or plain variable), all three sweep kinds.
 func commonSweeps(tier string) []sweep {
-	u := rs.Universe{Tokens: []string{"a", "b", "{x}", "{y}", "v1.0"}, Roots: []string{"/", "/a", "/a/b", "/b"}, MaxSub: 2,
-		Segs: []string{"a", "b", "7", "v1.0", "v1x0", ""}, MaxPath: 3, RMethods: []string{"GET", "POST"}, QMethods: []string{"GET", "POST", "PUT"}}
+	u := rs.Universe{Tokens: []string{"a", "b", "{x}", "{y}", "v1.0", "é d"}, Roots: []string{"/", "/a", "/a/b", "/b", "/é d"}, MaxSub: 2,
+		Segs: []string{"a", "b", "7", "v1.0", "v1x0", "", "é d"}, MaxPath: 3, RMethods: []string{"GET", "POST"}, QMethods: []string{"GET", "POST", "PUT"}}
 	us := u
 	us.Tokens = []string{"a", "b", "{x}", "{y}"}
 	us.Segs = []string{"a", "b", "7", ""}
@@ -28,7 +28,7 @@ func commonSweeps(tier string) []sweep {
 		us.MaxSub = 2
 	} else {
 		us.MaxSub = 2
-		us.Roots = []string{"/", "/a", "/a/b"}
+		us.Roots = []string{"/", "/a", "/a/b", "/a/"}
 	}
 	out := []sweep{
 		{"P1", rm.Curly, singles(pathAtoms(u)), pathReqs(u.Paths(), u.QMethods, false)},
